@@ -5,6 +5,7 @@ pub mod asm;
 pub mod core;
 pub mod des;
 pub mod guest;
+pub mod lockstep;
 pub mod sysrun;
 pub mod models;
 pub mod prng;
@@ -354,6 +355,9 @@ macro_rules! dispatch {
             "C16" => $f::<props::c16::C16>($($arg),*),
             "C10" => $f::<props::c10::C10>($($arg),*),
             "C06" => $f::<props::c10::C06>($($arg),*),
+            "C18" => $f::<props::c18::C18>($($arg),*),
+            "C13" => $f::<props::c13::C13>($($arg),*),
+            "C14" => $f::<props::c14::C14>($($arg),*),
             other => {
                 eprintln!("unknown property {}", other);
                 2
